@@ -516,3 +516,177 @@ Qed.
 Example reported_cost_fixed_on_witness :
   reported_flops_gen true witness_net [(0, 1)] = total_flops witness_net [] (Node (Leaf 0) (Leaf 1)).
 Proof. vm_compute. reflexivity. Qed.
+
+(* ------------------------------------------------------------------ *)
+(* the code as it is now (fix cd00d66: contract_nodes adds batch_factor * compute_flops):
+   the flops added by a contraction are the flops of the operands' ORIGINAL legs *)
+Definition drop_list (B : list nat) (l : plegs) : plegs := fold_left (fun l x => drop_ix x l) B l.
+
+Lemma nodup_keys_drop x l : NoDup (lkeys l) -> NoDup (lkeys (drop_ix x l)).
+Proof. intros H. rewrite lkeys_drop. apply NoDup_filter, H. Qed.
+Lemma in_keys_drop x l y : In y (lkeys (drop_ix x l)) <-> In y (lkeys l) /\ y <> x.
+Proof. rewrite lkeys_drop, filter_In, negb_true_iff, Nat.eqb_neq. tauto. Qed.
+
+Theorem batch_factor_restores_flops szs B : forall il jl, NoDup B -> NoDup (lkeys il) -> NoDup (lkeys jl) ->
+  (forall x, In x B -> In x (lkeys il) \/ In x (lkeys jl)) ->
+  (pprod szs B * pflops szs (drop_list B il) (drop_list B jl))%Z = pflops szs il jl.
+Proof.
+  induction B as [|x B IH]; intros il jl NB Ni Nj HB.
+  - unfold drop_list, pprod. cbn [fold_left map]. rewrite zprod_nil. lia.
+  - inversion NB as [|? ? Hx NB']; subst. unfold drop_list. cbn [fold_left]. fold (drop_list B (drop_ix x il)).
+    fold (drop_list B (drop_ix x jl)). rewrite pprod_cons.
+    rewrite (batch_removal_scales_flops szs x il jl Ni Nj).
+    assert (E : memb x (lkeys il) || memb x (lkeys jl) = true).
+    { apply orb_true_iff. rewrite !memb_In. apply HB. left; reflexivity. }
+    rewrite E.
+    rewrite <- (IH (drop_ix x il) (drop_ix x jl) NB' (nodup_keys_drop x il Ni) (nodup_keys_drop x jl Nj)).
+    + lia.
+    + intros y Hy. rewrite !in_keys_drop.
+      assert (y <> x) by (intros ->; contradiction).
+      destruct (HB y (or_intror Hy)); [left|right]; split; assumption.
+Qed.
+
+Lemma aget_adel_other {A} (i j : nat) (d : list (nat * A)) : j <> i -> aget j (adel i d) = aget j d.
+Proof.
+  intros H. induction d as [|[k v] d IH]; cbn; [reflexivity|].
+  destruct (Nat.eqb_spec k i) as [->|Hk].
+  - destruct (Nat.eqb_spec i j); [congruence|reflexivity].
+  - cbn. destruct (k =? j); [reflexivity|exact IH].
+Qed.
+
+Lemma proc_add_acc lg p : pflops_acc (fst (proc_add lg p)) = pflops_acc p /\ pszs (fst (proc_add lg p)) = pszs p.
+Proof. split; reflexivity. Qed.
+
+(* contract_nodes of the fixed code: flops += batch_factor * compute_flops(ilegs, jlegs) *)
+Lemma proc_pop_fields i p :
+  snd (proc_pop i p) = pget p i /\ pnodes (fst (proc_pop i p)) = adel i (pnodes p) /\
+  pszs (fst (proc_pop i p)) = pszs p /\ ptrack (fst (proc_pop i p)) = ptrack p /\
+  pflops_acc (fst (proc_pop i p)) = pflops_acc p /\ pbatch (fst (proc_pop i p)) = pbatch p /\
+  pfix (fst (proc_pop i p)) = pfix p.
+Proof. repeat split. Qed.
+
+Theorem fixed_contract_adds p i j : ptrack p = true -> pfix p = true -> i <> j ->
+  pflops_acc (fst (proc_contract i j p)) =
+  (pflops_acc p + pbatch p * pflops (pszs p) (pget p i) (pget p j))%Z.
+Proof.
+  intros Ht Hf Hij. unfold proc_contract.
+  pose proof (proc_pop_fields i p) as F1. destruct (proc_pop i p) as [p1 il]. cbn [fst snd] in F1.
+  destruct F1 as (Eil & En1 & Es1 & Et1 & Ea1 & Eb1 & Ef1).
+  pose proof (proc_pop_fields j p1) as F2. destruct (proc_pop j p1) as [p2 jl]. cbn [fst snd] in F2.
+  destruct F2 as (Ejl & En2 & Es2 & Et2 & Ea2 & Eb2 & Ef2).
+  assert (Ejl' : jl = pget p j).
+  { rewrite Ejl. unfold pget. rewrite En1. rewrite aget_adel_other by (intros E; apply Hij; symmetry; exact E). reflexivity. }
+  rewrite Et2, Et1, Ht, Ef2, Ef1, Hf.
+  match goal with |- context [proc_add ?lg ?q] =>
+    pose proof (proc_add_acc lg q) as F4; destruct (proc_add lg q) as [p4 k] end.
+  cbn [fst snd] in *. destruct F4 as [F4 _].
+  unfold proc_push_path. cbn [pflops_acc]. rewrite F4. unfold proc_add_flops. cbn [pflops_acc].
+  rewrite Ea2, Ea1, Eb2, Eb1, Es2, Es1, Eil, Ejl'. reflexivity.
+Qed.
+
+(* ... which is the product over the union of the operands' ORIGINAL indices whenever the
+   held legs are the originals minus the batch indices B and batch_factor = prod sizes(B) *)
+Theorem fixed_step_reports_original_flops p i j B il0 jl0 :
+  ptrack p = true -> pfix p = true -> i <> j ->
+  pbatch p = pprod (pszs p) B -> pget p i = drop_list B il0 -> pget p j = drop_list B jl0 ->
+  NoDup B -> NoDup (lkeys il0) -> NoDup (lkeys jl0) ->
+  (forall x, In x B -> In x (lkeys il0) \/ In x (lkeys jl0)) ->
+  pflops_acc (fst (proc_contract i j p)) = (pflops_acc p + pflops (pszs p) il0 jl0)%Z /\
+  pflops (pszs p) il0 jl0 = pprod (pszs p) (union_keys il0 jl0).
+Proof.
+  intros Ht Hf Hij Hb Hi Hj NB Ni Nj HB. split; [|apply pflops_is_union_product].
+  rewrite (fixed_contract_adds p i j Ht Hf Hij), Hb, Hi, Hj.
+  rewrite (batch_factor_restores_flops (pszs p) B il0 jl0 NB Ni Nj HB). reflexivity.
+Qed.
+
+(* simplify_batch establishes exactly those hypotheses, provided the edge map lists, for every
+   index, all the nodes that carry it (checked per run by proc_edges_ok_b) *)
+Definition pgetE (p : proc) (x : nat) : list nat := match aget x (pedges p) with Some l => l | None => [] end.
+Definition proc_edges_ok (p : proc) : Prop := forall x i, In x (lkeys (pget p i)) -> In i (pgetE p x).
+Definition proc_edges_ok_b (p : proc) : bool :=
+  forallb (fun it => forallb (fun kv => memb (fst it) (pgetE p (fst kv))) (snd it)) (pnodes p).
+
+Lemma aget_in {A} k (v : A) d : aget k d = Some v -> In (k, v) d.
+Proof.
+  induction d as [|[k' w] d IH]; cbn; [discriminate|].
+  destruct (Nat.eqb_spec k' k) as [->|]; [intros [= ->]; left; reflexivity|intros H; right; apply IH, H].
+Qed.
+
+Lemma proc_edges_ok_b_sound p : proc_edges_ok_b p = true -> proc_edges_ok p.
+Proof.
+  unfold proc_edges_ok_b, proc_edges_ok. rewrite forallb_forall. intros H x i Hx.
+  unfold pget in Hx. destruct (aget i (pnodes p)) as [l|] eqn:E; [|destruct Hx].
+  specialize (H (i, l) (aget_in _ _ _ E)). cbn [fst snd] in H. rewrite forallb_forall in H.
+  unfold lkeys in Hx. apply in_map_iff in Hx. destruct Hx as (kv & <- & Hkv).
+  apply memb_In. apply (H kv Hkv).
+Qed.
+
+Lemma aget_aset_same {A} k (v : A) d : aget k (aset k v d) = Some v.
+Proof.
+  induction d as [|[k' w] d IH]; cbn; [rewrite Nat.eqb_refl; reflexivity|].
+  destruct (Nat.eqb_spec k' k) as [->|Hk]; cbn; [rewrite Nat.eqb_refl; reflexivity|].
+  destruct (Nat.eqb_spec k' k); [contradiction|exact IH].
+Qed.
+Lemma aget_aset_other {A} k j (v : A) d : j <> k -> aget j (aset k v d) = aget j d.
+Proof.
+  intros H. induction d as [|[k' w] d IH]; cbn.
+  - destruct (Nat.eqb_spec k j); [congruence|reflexivity].
+  - destruct (Nat.eqb_spec k' k) as [->|Hk]; cbn.
+    + destruct (Nat.eqb_spec k j); [congruence|reflexivity].
+    + destruct (k' =? j); [reflexivity|exact IH].
+Qed.
+
+Lemma remove_ix_nodes_fold x (ks : list nat) : forall (nd : list (nat * plegs)) i,
+  match aget i (fold_left (fun nd node => match aget node nd with
+                                          | None => nd
+                                          | Some l => aset node (drop_ix x l) nd
+                                          end) ks nd) with Some l => l | None => [] end =
+  if memb i ks then drop_ix x (match aget i nd with Some l => l | None => [] end)
+  else match aget i nd with Some l => l | None => [] end.
+Proof.
+  induction ks as [|k ks IH]; intros nd i; cbn [fold_left memb existsb]; [reflexivity|].
+  rewrite IH. fold (memb i ks).
+  assert (Idem : forall l, drop_ix x (drop_ix x l) = drop_ix x l).
+  { intros l. unfold drop_ix. rewrite filter_filter_comm_and. apply filter_ext. intros kv. destruct (negb _); reflexivity. }
+  destruct (Nat.eqb_spec i k) as [->|Hik]; cbn [orb].
+  - destruct (aget k nd) as [l|] eqn:E.
+    + rewrite aget_aset_same. destruct (memb k ks); [apply Idem|reflexivity].
+    + rewrite E. destruct (memb k ks); reflexivity.
+  - destruct (aget k nd) as [l|] eqn:E; [rewrite (aget_aset_other k i) by exact Hik|]; reflexivity.
+Qed.
+
+Lemma proc_remove_ix_get x p i : proc_edges_ok p -> pget (proc_remove_ix x p) i = drop_ix x (pget p i).
+Proof.
+  intros Hok.
+  transitivity (if memb i (pgetE p x) then drop_ix x (pget p i) else pget p i).
+  - exact (remove_ix_nodes_fold x (pgetE p x) (pnodes p) i).
+  - destruct (memb i (pgetE p x)) eqn:E; [reflexivity|].
+    symmetry. apply drop_ix_notin. intros Hin. apply Hok in Hin. apply memb_false in E. contradiction.
+Qed.
+
+Lemma proc_remove_ix_ok x p : proc_edges_ok p -> proc_edges_ok (proc_remove_ix x p).
+Proof.
+  intros Hok y i Hy. rewrite (proc_remove_ix_get x p i Hok), in_keys_drop in Hy. destruct Hy as [Hy Hne].
+  unfold pgetE, proc_remove_ix. cbn [pedges]. rewrite aget_adel_other by exact Hne. apply Hok, Hy.
+Qed.
+
+Theorem simplify_batch_spec p : proc_edges_ok p ->
+  let B := batch_indices p in
+  (forall i, pget (proc_simplify_batch p) i = drop_list B (pget p i)) /\
+  pbatch (proc_simplify_batch p) = (pbatch p * pprod (pszs p) B)%Z /\
+  pszs (proc_simplify_batch p) = pszs p /\ pflops_acc (proc_simplify_batch p) = pflops_acc p /\
+  ptrack (proc_simplify_batch p) = ptrack p /\ pfix (proc_simplify_batch p) = pfix p.
+Proof.
+  intros Hok. cbn zeta. unfold proc_simplify_batch. generalize (batch_indices p) as B. intros B. revert p Hok.
+  induction B as [|x B IH]; intros p Hok; cbn [fold_left].
+  - repeat split. unfold pprod. cbn. lia.
+  - assert (Hok1 : proc_edges_ok (proc_scale_batch x p)) by exact Hok.
+    destruct (IH (proc_remove_ix x (proc_scale_batch x p)) (proc_remove_ix_ok x _ Hok1)) as (G1 & G2 & G3 & G4 & G5 & G6).
+    repeat split.
+    + intros i. rewrite G1, (proc_remove_ix_get x _ i Hok1). reflexivity.
+    + rewrite G2. unfold proc_remove_ix, proc_scale_batch. cbn [pbatch pszs]. rewrite pprod_cons. lia.
+    + rewrite G3. reflexivity.
+    + rewrite G4. reflexivity.
+    + rewrite G5. reflexivity.
+    + rewrite G6. reflexivity.
+Qed.
